@@ -251,6 +251,47 @@ def h05d(c):
         c.cover("batched")
 
 
+def h05e(c):
+    """starting-price reconciliation of a limit-on-close order through the real SimulatedOrder.__call__ / _process_sp with a symbolic
+    starting price (any value with 3 decimals): a BACK order is filled only when the starting price is at or above its limit, a LAY order only
+    at or below it, and the fill is recorded at the starting price itself"""
+    with cm.config_set(simulated=True):
+        side = c.choose("side", ["BACK", "LAY"])
+        limit = c.cents("limit_price", 101, 100000)
+        liab = c.pick("liability", [2.0, 10.0, 50.0])
+        sp = c.mills("starting_price", 1010, 1000000)
+        fl, (client,), (strategy,) = cm.new_sim()
+        r1 = cm.runner(1)
+        bk = cm.book([r1], version=7)
+        market = cm.add_market(fl, bk)
+        o = cm.mk_loc(strategy, side, liab, limit)
+        cm.place_resting(fl, market, strategy, o, 1)
+        r1.sp = cm.SP(actualSP=sp)
+        bk2 = cm.book([r1], version=7, pt_ms=cm.T0_MS + 1000, bsp_reconciled=True, inplay=True)
+        with c.guard("__call__"):
+            o.simulated(bk2, (r1, {}))
+        frags = o.simulated.matched
+        within = (sp >= limit) if side == "BACK" else (sp <= limit)
+        c.ob("limit-on-close.filled<=>starting-price-within-limit", within if frags else c.Not(within), fragments=len(frags))
+        for f in frags:
+            c.ob("limit-on-close.fill-at-the-starting-price", f[1] == sp)
+            c.ob("limit-on-close.fill-within-limit", (f[1] >= limit) if side == "BACK" else (f[1] <= limit))
+        if side == "BACK" and frags:
+            c.ob("limit-on-close.back-stake=liability", frags[0][2] == liab)
+        c.ob("limit-on-close.complete-after-reconciliation", o.status == OrderStatus.EXECUTION_COMPLETE)
+        c.cover("reconciled")
+        if frags:
+            c.cover("sp-fill")
+
+
+def h05g(c):
+    """an order is matched against a level once: a batching transaction with explicit execute() calls (C01 world) never hands an order to the
+    simulated exchange twice - a second placement would take from the same level again"""
+    from .c01 import h01t
+    from .c06 import _Only
+    h01t(_Only(c, ("handed-to-exchange-exactly-once", "handed-over-at-most-once", "never-sent", "no-exception")))
+
+
 CS_Q = dict(order=[2.0, 5.0], level=[1.0, 3.0, 7.0])
 CS_T = dict(order=[0.03, 2.0, 5.0, 11.0], level=[0.01, 1.0, 3.0, 7.0])
 HARNESSES = [
@@ -261,6 +302,8 @@ HARNESSES = [
     Harness("H05c", h05a, quick=dict(L=2, vwap="only", concrete_sizes=CS_Q), thorough=dict(L=3, vwap="only", concrete_sizes=CS_T),
             pattern="P1 kernel-with-oracle", requires=["fok-fill", "fok-kill", "multi-level-fill"],
             outside=["VWAP sweep with order/level sizes outside the listed concrete sets (prices: every 2dp value, symbolic)"]),
+    Harness("H05e", h05e, pattern="P1 kernel-with-oracle (starting price symbolic)", requires=["reconciled", "sp-fill"], selfcheck=False),
+    Harness("H05g", h05g, pattern="P3 short history (batching transaction -> real simulated execution)", requires=["accepted"], selfcheck=False),
     Harness("H05d", h05d, pattern="P5 (order completed in flight) + P1", requires=["batched", "first-completed-in-flight"]),
     Harness("H05b", h05b, quick=dict(V=2), thorough=dict(V=3), pattern="P2 inductive step", requires=["passive-fill", "no-eligible-trade", "available-fill"],
             outside=["traded ladders with more than V price points per update (prices concrete: 1.5, 2.0, 3.0)"]),
